@@ -4,7 +4,7 @@
 
   * heap of `FData` objects: object identity matters (handles survive rename/remove; during
     `Rename` one directory object is reachable under its old and new key);
-  * path map `data : List (Key × ObjId)` — Go's `map[string]*FileData`; a `Key` is the cleaned
+  * path map `data : List (Key × Nat)` — Go's `map[string]*FileData`; a `Key` is the cleaned
     path split into segments plus the rooted flag (afero keeps `a/b` and `/a/b` apart);
   * every directory object carries `memDir`, Go's `DirMap` (name ↦ object);
   * Go map iteration is modelled by the insertion order of the association list; results are
@@ -61,7 +61,6 @@ def modeDir : Nat := 2 ^ 31
 def modeTemporary : Nat := 2 ^ 28
 def chmodBits : Nat := 0o777 ||| 2 ^ 23 ||| 2 ^ 22 ||| 2 ^ 20   -- ModePerm|Setuid|Setgid|Sticky
 
-abbrev ObjId := Nat
 
 structure FData where
   name : Key
@@ -71,7 +70,7 @@ structure FData where
   mtime : Int := 0
   uid : Int := 0
   gid : Int := 0
-  memDir : Option (List (Key × ObjId)) := none      -- nil map for regular files
+  memDir : Option (List (Key × Nat)) := none      -- nil map for regular files
   deriving Repr, Inhabited
 
 /-- what a handle call does to the file object: new bytes, and the mtime stamp on success -/
@@ -79,52 +78,52 @@ def FData.withIO (d : FData) (data : Bytes) (stamp : Bool) (now : Int) : FData :
   { d with data := data, mtime := if stamp then now else d.mtime }
 
 structure MHandle where
-  obj : ObjId
+  obj : Nat
   h : Handle := {}
   readDirCount : Nat := 0
   deriving Repr, Inhabited
 
 structure MemFs where
   objs : List FData := []
-  data : List (Key × ObjId) := []
+  data : List (Key × Nat) := []
   handles : List MHandle := []
   now : Int := 0
   deriving Repr, Inhabited
 
 /-! association-list helpers (Go map semantics: one value per key) -/
-def alLookup (m : List (Key × ObjId)) (k : Key) : Option ObjId :=
+def alLookup (m : List (Key × Nat)) (k : Key) : Option Nat :=
   (m.find? (·.1 = k)).map (·.2)
-def alErase (m : List (Key × ObjId)) (k : Key) : List (Key × ObjId) := m.filter (·.1 ≠ k)
-def alInsert (m : List (Key × ObjId)) (k : Key) (v : ObjId) : List (Key × ObjId) :=
+def alErase (m : List (Key × Nat)) (k : Key) : List (Key × Nat) := m.filter (·.1 ≠ k)
+def alInsert (m : List (Key × Nat)) (k : Key) (v : Nat) : List (Key × Nat) :=
   if (alLookup m k).isSome then m.map fun e => if e.1 = k then (k, v) else e else m ++ [(k, v)]
 
 namespace MemFs
 
-def obj (m : MemFs) (i : ObjId) : FData := m.objs.getD i default
-def setObj (m : MemFs) (i : ObjId) (f : FData) : MemFs := { m with objs := m.objs.set i f }
-def alloc (m : MemFs) (f : FData) : MemFs × ObjId := ({ m with objs := m.objs ++ [f] }, m.objs.length)
+def obj (m : MemFs) (i : Nat) : FData := m.objs.getD i default
+def setObj (m : MemFs) (i : Nat) (f : FData) : MemFs := { m with objs := m.objs.set i f }
+def alloc (m : MemFs) (f : FData) : MemFs × Nat := ({ m with objs := m.objs ++ [f] }, m.objs.length)
 
 /-- `getData()` initialisation: the root directory exists from the start -/
 def init : MemFs :=
   { objs := [{ name := rootKey, dir := true, mode := modeDir ||| 0o755, memDir := some [] }],
     data := [(rootKey, 0)] }
 
-def lookup (m : MemFs) (k : Key) : Option ObjId := alLookup m.data k
+def lookup (m : MemFs) (k : Key) : Option Nat := alLookup m.data k
 
 /-- `mem.CreateFile` / `mem.CreateDir` -/
 def newFile (m : MemFs) (k : Key) : FData := { name := k, mode := modeTemporary, mtime := m.now }
 def newDir (m : MemFs) (k : Key) : FData := { name := k, dir := true, memDir := some [], mtime := m.now }
 
 /-- `findParent` -/
-def findParent (m : MemFs) (f : ObjId) : Option ObjId := m.lookup (parentKey (m.obj f).name)
+def findParent (m : MemFs) (f : Nat) : Option Nat := m.lookup (parentKey (m.obj f).name)
 
 /-- `registerWithParent` and `lockfreeMkdir` (mutually recursive in the source; fuel = depth) -/
-def registerWithParent : Nat → MemFs → ObjId → Nat → MemFs
+def registerWithParent : Nat → MemFs → Nat → Nat → MemFs
   | 0, m, _, _ => m
   | fuel + 1, m, f, perm =>
     let pk := parentKey (m.obj f).name
     -- parent := findParent(f); if nil: lockfreeMkdir(pdir, perm) and look again
-    let (m, parent?) : MemFs × Option ObjId :=
+    let (m, parent?) : MemFs × Option Nat :=
       match m.lookup pk with
       | some p => (m, some p)
       | none =>
@@ -143,7 +142,7 @@ def registerWithParent : Nat → MemFs → ObjId → Nat → MemFs
       m.setObj p { pd with memDir := pd.memDir.map fun d => alInsert d fname f }
 
 /-- fuel that always suffices: one level per path segment, plus one -/
-def regFuel (m : MemFs) (f : ObjId) : Nat := (m.obj f).name.segs.length + 2
+def regFuel (m : MemFs) (f : Nat) : Nat := (m.obj f).name.segs.length + 2
 
 /-- `unRegisterWithParent(fileName)`: error (none) if the file does not exist; the source
     log.Panics when the parent is missing — modelled as `panic` by the callers. -/
@@ -165,7 +164,7 @@ def unRegisterWithParent (m : MemFs) (k : Key) : UnregRes :=
 def depthOf (k : Key) : Nat := (if k.rooted then 1 else 0) + k.segs.length
 
 /-- `findDescendants`: objects whose key lies under `name`, sorted by depth -/
-def findDescendants (m : MemFs) (name : Key) : List ObjId :=
+def findDescendants (m : MemFs) (name : Key) : List Nat :=
   let ds := (m.data.filter fun e => isUnder name e.1).map (·.2)
   ds.mergeSort fun a b => depthOf (m.obj a).name ≤ depthOf (m.obj b).name
 
@@ -206,7 +205,7 @@ inductive MRes where
 
 namespace MemFs
 
-def addHandle (m : MemFs) (o : ObjId) (ro : Bool) : MemFs × Nat :=
+def addHandle (m : MemFs) (o : Nat) (ro : Bool) : MemFs × Nat :=
   ({ m with handles := m.handles ++ [{ obj := o, h := { readOnly := ro } }] }, m.handles.length)
 
 /-- `setFileMode` -/
@@ -217,7 +216,7 @@ def setFileMode (m : MemFs) (k : Key) (mode : Nat) : MemFs × Option FsErr :=
 
 /-- `Create` (as repaired: an existing regular file is truncated in place, so that handles
     already open on it keep seeing the file) -/
-def create (m : MemFs) (k : Key) : MemFs × ObjId :=
+def create (m : MemFs) (k : Key) : MemFs × Nat :=
   match m.lookup k with
   | some f =>
     if (m.obj f).dir then
@@ -262,7 +261,7 @@ def openFile (m : MemFs) (k : Key) (flag perm : Nat) : MemFs × MRes :=
   let existing := m.lookup k
   if existing.isSome ∧ flag &&& O_EXCL > 0 then (m, .err .exist)
   else
-    let r : Option (MemFs × ObjId × Bool) :=
+    let r : Option (MemFs × Nat × Bool) :=
       match existing with
       | some f => some (m, f, false)
       | none => if flag &&& O_CREATE > 0 then let (m', f) := m.create k; some (m', f, true) else none
@@ -305,7 +304,7 @@ def removeAll (m : MemFs) (k : Key) : MemFs × MRes :=
     ({ m1 with data := m1.data.filter fun e => ¬ (e.1 = k ∨ isUnder k e.1) }, .ok)
 
 /-- one round of the loop in `renameDescendants` -/
-def renameOneDesc (oldname newname : Key) (acc : Option (MemFs × List Key)) (desc : ObjId) :
+def renameOneDesc (oldname newname : Key) (acc : Option (MemFs × List Key)) (desc : Nat) :
     Option (MemFs × List Key) :=
   match acc with
   | none => none
@@ -373,12 +372,12 @@ def chtimes (m : MemFs) (k : Key) (t : Int) : MemFs × MRes :=
 /-! ### handle methods -/
 
 /-- `DirMap.Files()`: entries sorted by (full) name -/
-def dirFiles (m : MemFs) (d : FData) : List ObjId :=
+def dirFiles (m : MemFs) (d : FData) : List Nat :=
   let es := (d.memDir.getD [])
   (es.mergeSort fun a b => strLe a.1.render b.1.render).map (·.2)
 
 /-- `File.Readdir(count)` (as repaired: the cursor is clamped to the current length) -/
-def readdir (m : MemFs) (hi : Nat) (count : Int) : MemFs × Option (List ObjId) × Option FErr :=
+def readdir (m : MemFs) (hi : Nat) (count : Int) : MemFs × Option (List Nat) × Option FErr :=
   match m.handles[hi]? with
   | none => (m, none, some .inval)
   | some mh =>
